@@ -365,11 +365,11 @@ def plan_c20(tier):
     pkgs = repo_packages()
     viol, lattice = [], []
 
-    def check_pkg(pk):
-        feats = sorted(f for f in pk["features"] if f != "default")
+    def check_some(job):
+        pk, subs, k = job
         out = []
-        tdir = os.path.join(BUILD, "c20", pk["name"])
-        for sub in sorted(subsets(feats), key=lambda s: (len(s), s)):
+        tdir = os.path.join(BUILD, "c20", "%s-%d" % (pk["name"], k))
+        for sub in subs:
             cmd = ["cargo", "check", "--offline", "-q", "--lib", "--manifest-path", pk["manifest_path"], "--no-default-features", "--target-dir", tdir]
             if sub:
                 cmd += ["--features", ",".join(sub)]
@@ -378,8 +378,20 @@ def plan_c20(tier):
             out.append((pk["name"], sub, p.returncode == 0, (errs[0] if errs else p.stdout[-300:])))
         return out
 
-    with ThreadPoolExecutor(max_workers=9) as ex:
-        allres = list(ex.map(check_pkg, pkgs))
+    jobs = []
+    for pk in pkgs:
+        feats = sorted(f for f in pk["features"] if f != "default")
+        subs = sorted(subsets(feats), key=lambda s: (len(s), s))
+        lanes = 4 if len(subs) > 8 else (2 if len(subs) > 2 else 1)
+        for k in range(lanes):
+            jobs.append((pk, subs[k::lanes], k))
+    with ThreadPoolExecutor(max_workers=16) as ex:
+        parts = list(ex.map(check_some, jobs))
+    bypkg = {}
+    for part in parts:
+        for r in part:
+            bypkg.setdefault(r[0], []).append(r)
+    allres = [sorted(v, key=lambda r: (len(r[1]), r[1])) for v in bypkg.values()]
     nbuilds = 0
     for res in allres:
         failing = [set(s) for (_, s, ok, _) in res if not ok]
